@@ -6,6 +6,7 @@ import (
 	"path/filepath"
 	"runtime"
 	"strings"
+	"sync"
 
 	"gopkg.in/yaml.v3"
 
@@ -77,53 +78,74 @@ func SelfTest(id, dir, verif string) SelfTestResult {
 	}
 	kf, _ := report.LoadKnown(filepath.Join(verif, "known_findings.json"))
 	fired, skipped, benignOK := 0, 0, 0
-	var details []map[string]any
-	for _, m := range ms {
-		ov, skip, err := overlayFor(dir, m)
-		if skip {
-			skipped++
-			details = append(details, map[string]any{"mutant": m.Name, "result": "skipped: " + err.Error()})
-			continue
-		}
-		p, err := load.Load(load.Options{Dir: dir, Overlay: ov})
-		if err != nil {
-			// the variant no longer type-checks against the edited tree: not a statement about the rule
-			skipped++
-			details = append(details, map[string]any{"mutant": m.Name, "result": "skipped: does not type-check on this tree"})
-			continue
-		}
-		failing, _ := RunOn(id, p, kf)
-		p = nil
-		runtime.GC()
-		if m.Benign {
-			if len(failing) == 0 {
-				benignOK++
-				details = append(details, map[string]any{"mutant": m.Name, "result": "benign variant: silent"})
+	details := make([]map[string]any, len(ms))
+	var mu sync.Mutex
+	var wg sync.WaitGroup
+	sem := make(chan struct{}, 6)
+	for i, m := range ms {
+		wg.Add(1)
+		go func(i int, m Mutant) {
+			defer wg.Done()
+			sem <- struct{}{}
+			defer func() { <-sem }()
+			set := func(d map[string]any, f func()) {
+				mu.Lock()
+				defer mu.Unlock()
+				details[i] = d
+				if f != nil {
+					f()
+				}
+			}
+			defer func() {
+				if r := recover(); r != nil {
+					set(map[string]any{"mutant": m.Name, "result": fmt.Sprintf("PANIC %v", r)}, func() { res.Broken = fmt.Sprintf("variant %q: checker panic %v", m.Name, r) })
+				}
+			}()
+			ov, skip, err := overlayFor(dir, m)
+			if skip {
+				set(map[string]any{"mutant": m.Name, "result": "skipped: " + err.Error()}, func() { skipped++ })
+				return
+			}
+			p, err := load.Load(load.Options{Dir: dir, Overlay: ov})
+			if err != nil {
+				// the variant no longer type-checks against the edited tree: not a statement about the rule
+				set(map[string]any{"mutant": m.Name, "result": "skipped: does not type-check on this tree: " + firstLine(err.Error())}, func() { skipped++ })
+				return
+			}
+			failing, _ := RunOn(id, p, kf)
+			p = nil
+			runtime.GC()
+			if m.Benign {
+				if len(failing) == 0 {
+					set(map[string]any{"mutant": m.Name, "result": "benign variant: silent"}, func() { benignOK++ })
+				} else {
+					set(map[string]any{"mutant": m.Name, "result": "FALSE ALARM " + failing[0].Key + ": " + failing[0].Detail}, func() {
+						res.Broken = fmt.Sprintf("benign variant %q raised %s", m.Name, failing[0].Key)
+					})
+				}
+				return
+			}
+			hit := ""
+			for _, o := range failing {
+				if strings.Contains(o.Key, m.Expect) {
+					hit = o.Key
+					break
+				}
+			}
+			if hit != "" {
+				set(map[string]any{"mutant": m.Name, "result": "fired", "at": hit}, func() { fired++ })
 			} else {
-				res.Broken = fmt.Sprintf("benign variant %q raised %s", m.Name, failing[0].Key)
-				details = append(details, map[string]any{"mutant": m.Name, "result": "FALSE ALARM " + failing[0].Key})
+				got := "nothing"
+				if len(failing) > 0 {
+					got = failing[0].Key
+				}
+				set(map[string]any{"mutant": m.Name, "result": "MISSED", "got": got}, func() {
+					res.Broken = fmt.Sprintf("variant %q expected a report containing %q, got %s", m.Name, m.Expect, got)
+				})
 			}
-			continue
-		}
-		hit := ""
-		for _, o := range failing {
-			if strings.Contains(o.Key, m.Expect) {
-				hit = o.Key
-				break
-			}
-		}
-		if hit != "" {
-			fired++
-			details = append(details, map[string]any{"mutant": m.Name, "result": "fired", "at": hit})
-		} else {
-			got := "nothing"
-			if len(failing) > 0 {
-				got = failing[0].Key
-			}
-			res.Broken = fmt.Sprintf("variant %q expected a report containing %q, got %s", m.Name, m.Expect, got)
-			details = append(details, map[string]any{"mutant": m.Name, "result": "MISSED", "got": got})
-		}
+		}(i, m)
 	}
+	wg.Wait()
 	res.Info["mutants_total"] = len(ms)
 	res.Info["mutants_fired"] = fired
 	res.Info["mutants_benign_silent"] = benignOK
@@ -156,4 +178,16 @@ func overlayFor(dir string, m Mutant) (map[string][]byte, bool, error) {
 		ov[abs] = []byte(strings.Replace(s, e.find, e.replace, 1))
 	}
 	return ov, false, nil
+}
+
+func firstLine(s string) string {
+	if i := strings.Index(s, "\n"); i >= 0 {
+		// keep the first reported error too
+		rest := s[i+1:]
+		if j := strings.Index(rest, "\n"); j >= 0 {
+			rest = rest[:j]
+		}
+		return s[:i] + " " + strings.TrimSpace(rest)
+	}
+	return s
 }
